@@ -1,6 +1,8 @@
 pub mod c02;
 pub mod c03;
 pub mod c06;
+pub mod c07;
+pub mod c09;
 pub mod c11;
 pub mod c12;
 pub mod c13;
@@ -18,6 +20,8 @@ pub fn lookup(id: &str) -> Option<(CheckFn, ReplayFn)> {
         "C02" => Some((c02::run, c02::replay)),
         "C03" => Some((c03::run, c03::replay)),
         "C06" => Some((c06::run, c06::replay)),
+        "C07" => Some((c07::run, c07::replay)),
+        "C09" => Some((c09::run, c09::replay)),
         "C11" => Some((c11::run, c11::replay)),
         "C12" => Some((c12::run, c12::replay)),
         "C13" => Some((c13::run, c13::replay)),
